@@ -149,9 +149,32 @@ def _no_rewrite(path):
             return (path, "clean-changed", "--fix changed the bytes of a file whose all-phases report is empty")
         if (st1.st_ino, st1.st_mtime_ns) != (st0.st_ino, st0.st_mtime_ns):
             return (path, "clean-rewritten", "--fix rewrote (inode/mtime changed) a file whose all-phases report is empty")
-        leftovers = [x for x in os.listdir(d) if x not in ("t.vhd", "c.yaml")]
+        leftovers = [x for x in os.listdir(d) if x not in ("t.vhd", "c.yaml", "b.yaml")]
         if leftovers:
             return (path, "leftover", "files left behind: %r" % leftovers)
+        # (3) a file that is clean for the ENABLED rules although it is not normalised: trailing white space and a white-space-only
+        # line, with the rule that reports them switched off: nothing is fixable, so nothing may be written
+        cfgb = os.path.join(d, "b.yaml")
+        with open(cfgb, "w") as fh:
+            fh.write(CLEAN_CFG + "  whitespace_001:\n    disable: true\n  whitespace_200:\n    disable: true\n")
+        lines = open(f, "rb").read().decode("utf-8").split("\n")
+        if len(lines) > 4:
+            lines[1] = lines[1] + "  "
+            lines[len(lines) // 2] = lines[len(lines) // 2] + " \t"
+            with open(f, "wb") as fh:
+                fh.write("\n".join(lines).encode("utf-8"))
+            rc, so, se = _cli(["-f", f, "-c", cfgb, "-ap"], d)
+            import re
+
+            m = re.search(r"Total Violations:\s+(\d+)", so)
+            if rc == 0 and m and int(m.group(1)) == 0:
+                os.utime(f, ns=(10**18, 10**18))
+                st0 = os.stat(f)
+                b0 = open(f, "rb").read()
+                _cli(["-f", f, "-c", cfgb, "--fix"], d)
+                st1 = os.stat(f)
+                if open(f, "rb").read() != b0 or (st1.st_ino, st1.st_mtime_ns) != (st0.st_ino, st0.st_mtime_ns):
+                    return (path, "clean-rewritten", "--fix rewrote a file with trailing white space whose report is empty (whitespace_001 disabled): nothing was fixable")
         return (path, "ok", None)
     finally:
         shutil.rmtree(d, ignore_errors=True)
